@@ -96,8 +96,9 @@ def run(C, R):
                         if not (any(w['k'] == 'wake' and w['waker'] in (x, inner) for w in path.events)
                                 or k == ('eq', 'None')):
                             woke = False
+                    from common import payload_param as _pp
                     good = (ff == 0 and len(stores) == 1 and stores[0]['val'] == ('agg', 'std::option::Option', 'Some',
-                                                                                   (('0', ('param', 'value')),))
+                                                                                   (('0', _pp(send)),))
                             and setf and drained and woke)
                     if good:
                         R.ok('C12.R1', '%s|accept|%s' % (send['path'], path_cond(E, path)),
@@ -111,7 +112,8 @@ def run(C, R):
                                'set the flag, and drain the waiters with a waking closure', where(F, stores[0]) if
                                stores else '%s:%s' % (send['file'], send['line']), {'trace': trace_summary(path)})
                 else:
-                    if stores or setf or not contains(path.ret, ('param', 'value')) or ff != 1:
+                    from common import payload_param as _pp
+                    if stores or setf or not contains(path.ret, _pp(send)) or ff != 1:
                         R.fail('C12.R1', [send['path'], 'reject-path'],
                                'send() rejecting path must not touch the slot and must return the caller\'s value '
                                '(flag fact=%s)' % ff, '%s:%s' % (send['file'], send['line']),
